@@ -78,6 +78,8 @@ class IndexRun:
         self.events = list(events)
         self.env_events = [e for e in self.events if e['e'] in ('mine', 'fork', 'switch', 'force', 'poll', 'lookback')]
         self.flags = [e['flush'] for e in self.events if e['e'] == 'advance']
+        self.poll_idx = 0           # 'poll' events of the scenario consumed so far
+        self.scal = []              # scalars of the process state observed when advance_block / on_caught_up / backup_block return
         self.activation = activation
         self.reorg_limit = reorg_limit
         self.prefetch = prefetch
@@ -161,15 +163,32 @@ class IndexRun:
         real_advance = bp.advance_block
         real_caught_up = bp.on_caught_up
 
+        def scalars(after_backup=False):
+            db, st = self.db, bp.state
+            return {'memh': st.height, 'txc': st.tx_count, 'uc': st.utxo_count, 'nc': len(bp.utxo_cache),
+                    'nd': len(bp.db_deletes) // 2, 'nu': sum(len(v) for v in db.history.unflushed.values()) // 5,
+                    'npu': len(bp.undo_infos), 'hfc': db.history.flush_count,
+                    'dbh': db.state.height if db.state is not None else -1, 'fsh': db.fs_height}
+        self.scalars = scalars
+
         def advance_block(block):
             real_advance(block)
             if bp.reorg_count is None:
+                self.scal.append({'k': 'advance', 'p': self.poll_idx, 'got': scalars()})
                 kind = self.flags.pop(0) if self.flags else 'none'
                 if kind == 'hist':
                     bp.force_flush_arg = False
                 elif kind == 'full':
                     bp.force_flush_arg = True
         advance_block.__qualname__ = 'BlockProcessor.advance_block'
+
+        real_backup = bp.backup_block
+
+        def backup_block(block):
+            real_backup(block)
+            self.scal.append({'k': 'backup', 'p': self.poll_idx, 'got': scalars()})
+        backup_block.__qualname__ = 'BlockProcessor.backup_block'
+        bp.backup_block = backup_block
 
         async def on_caught_up():
             await real_caught_up()
@@ -482,7 +501,7 @@ class IndexRun:
         return {'tree': [[b.parent.bid if b.parent else -1, b.height, b.slots, b.cb] for _bid, b in sorted(self.tree.blocks.items())],
                 'activation': self.activation, 'limit': self.reorg_limit, 'steps': self.steps,
                 'ops': len(ops), 'oplog': [(k, d) for _n, k, d in ops], 'fired': fired, 'died': self.died,
-                'flush_job_ops': list(getattr(self, 'flush_job_ops', []))}
+                'flush_job_ops': list(getattr(self, 'flush_job_ops', [])), 'scal': list(getattr(self, 'scal', []))}
 
     def no_progress_step(self, e):
         return {'ev': 'died', 'why': 'other', 'exc': f'the server cannot be driven any further: {e}'[:200], 'need': 0,
@@ -545,6 +564,8 @@ class IndexRun:
                     self.polls += 1
                     self.record('view')
                     more = self.consume_until(('poll',))
+                    if more:
+                        self.poll_idx += 1
                     if not more:
                         exhausted_polls += 1
                         # finished when the script is consumed and the server sits caught up on an idle poll
